@@ -41,3 +41,25 @@ pub fn print_ast(air: &str) {
         Err(e) => println!("ERR {e}"),
     }
 }
+
+/// canonical observation of an outcome (what the C20 property compares): code, message, decoded data, decoded requests, next-peer set
+pub fn canon_outcome(o: &air_interpreter_interface::InterpreterOutcome) -> serde_json::Value {
+    let mut next = o.next_peer_pks.clone(); next.sort();
+    let reqs: std::collections::BTreeMap<String, serde_json::Value> = decode_requests(&o.call_requests).map(|m| m.iter().map(|(k, v)|
+        (k.to_string(), serde_json::json!({"service_id": v.service_id, "function_name": v.function_name, "args": decode_args(v), "tetraplets": decode_tetraplets(v)}))).collect()).unwrap_or_default();
+    serde_json::json!({"code": o.ret_code, "msg": o.error_message, "data": fnv(&canon_data(&o.data)), "next": next, "requests": reqs, "requests_decode": decode_requests(&o.call_requests).is_some()})
+}
+
+/// `aquaharness rerun-step <file>`: re-execute one recorded step in THIS (fresh) process and print its canonical observation
+pub fn rerun_step(input: &serde_json::Value) {
+    use air_interpreter_interface::{CallResults, CallServiceResult};
+    let peer = Peer::new(input["peer"].as_str().unwrap());
+    let init = Peer::new(input["init_peer"].as_str().unwrap());
+    let prev = unhex(input["prev_hex"].as_str().unwrap_or(""));
+    let cur = unhex(input["cur_hex"].as_str().unwrap_or(""));
+    let mut results = CallResults::new();
+    if let Some(m) = input["results"].as_object() { for (k, v) in m { results.insert(k.clone(), CallServiceResult { ret_code: v["ret_code"].as_i64().unwrap() as i32, result: v["result"].as_str().unwrap().to_string() }); } }
+    let o = crate::host::run(&RunArgs { air: input["air"].as_str().unwrap(), prev: &prev, cur: &cur, init_peer_id: &init.id, peer: &peer, particle_id: input["particle"].as_str().unwrap(),
+        timestamp: input["timestamp"].as_u64().unwrap_or(1_700_000_000_000), ttl: input["ttl"].as_u64().unwrap_or(120_000) as u32, results: &results, limits: Limits::unlimited() });
+    println!("{}", serde_json::to_string(&canon_outcome(&o)).unwrap());
+}
